@@ -601,7 +601,9 @@ func (g *c04Gen) boolean(d int) string {
 		f := r.chance(1, 3)
 		return c04Bin(g.num(d-1, f), pick(r, []string{"<", "<=", ">", ">="}), g.num(d-1, f))
 	case 8:
-		return c04Bin(g.num(d-1, false), pick(r, []string{"=", "!="}), g.num(d-1, false))
+		// = / != on integers, floats and mixed pairs
+		f := r.chance(1, 3)
+		return c04Bin(g.num(d-1, f), pick(r, []string{"=", "!="}), g.num(d-1, f && r.chance(1, 2)))
 	case 9:
 		return c04Bin(g.str(d-1), pick(r, []string{"=", "!=", "<", ">=", "^="}), g.str(d-1))
 	case 10:
